@@ -17,6 +17,7 @@ def step_residuals(res, cls, u, t, m_i):
     """Residual of the implicit update on interior rows and the no-flow outer row, from public
     state only.  Returns (kappa, worst list of (ratio, i, j, resid, tol))."""
     n, nx = u.shape
+    eps_t = float(np.finfo(t.dtype).eps) if t.dtype.kind == "f" and t.dtype.itemsize < 8 else 0.0
     D, G, TOLS = [], [], []
     for i in range(n - 1):
         dt = t[i + 1] - t[i]
@@ -32,38 +33,43 @@ def step_residuals(res, cls, u, t, m_i):
         g[0] = d[0] = 0.0  # frac-face row is C01/C02's business
         D.append(d)
         G.append(g)
-        TOLS.append((float(np.max(np.abs(b))), float(dt * a.max()), float(np.max(np.abs(u1)))))
+        TOLS.append((float(np.max(np.abs(b))), float(dt * a.max()), float(np.max(np.abs(u1))),
+                     float(np.max(np.abs(d)))))
     D, G = np.array(D), np.array(G)
     gg = float(np.sum(G * G))
     if gg == 0.0:
-        return None, [], 0.0
+        return None, [], 0.0, 0.0
     kappa = float(np.sum(D * G) / gg)
+    # resolution of the estimate: D carries rounding of size eps*|u|; if that moves kappa by more than
+    # 1e-6 relative (updates below machine resolution, e.g. dt ~ 1e-9), the range test is not applied
+    kappa_unc = float(np.finfo(float).eps * np.max(np.abs(u)) * np.sqrt(D.size) / np.sqrt(gg)) / max(abs(kappa), 1e-300)
     R = np.abs(D - kappa * G)
     worst = []
     rmax = 0.0
     for i in range(n - 1):
-        bmax, dta, umax = TOLS[i]
-        tol = RES_TOL * max(bmax, (1 + 4 * abs(kappa) * dta) * umax)
+        bmax, dta, umax, dmax = TOLS[i]
+        # time stamps of lower precision than double leave the increment itself uncertain by ~eps(time dtype)
+        tol = RES_TOL * max(bmax, (1 + 4 * abs(kappa) * dta) * umax) + 4 * eps_t * dmax
         j = int(np.argmax(R[i]))
         ratio = R[i, j] / tol if tol > 0 else (np.inf if R[i, j] > 0 else 0.0)
         rmax = max(rmax, ratio)
         if ratio > 1:
             worst.append((float(ratio), i, j, float(R[i, j]), float(tol)))
     worst.sort(reverse=True)
-    return kappa, worst, rmax
+    return kappa, worst, rmax, kappa_unc
 
 
 def check_run(res, cls, t, m_i, nx, case):
     u = np.asarray(res.pseudopressure, dtype=float)
-    t = np.asarray(res.time, dtype=float)
+    t = np.asarray(res.time)
     viol = []
     if not np.all(np.isfinite(u)):
         return [V("be-residual/finite", "stored field is not finite", case=case)], None, 0.0
-    kappa, worst, rmax = step_residuals(res, cls, u, t, m_i)
+    kappa, worst, rmax, kunc = step_residuals(res, cls, u, t, m_i)
     if kappa is None:
         return viol, None, 0.0
     lo, hi = (nx - 1) ** 2 * (1 - 1e-6), (nx + 1) ** 2 * (1 + 1e-6)
-    if not lo <= kappa <= hi:
+    if kunc <= 1e-6 and not lo <= kappa <= hi:
         viol.append(V("be-residual/mesh-constant", f"least-squares mesh constant {kappa:.6g} is outside "
                       f"[(nx-1)^2, (nx+1)^2] = [{(nx - 1) ** 2}, {(nx + 1) ** 2}]: the steps are not a "
                       "backward-Euler update with one mesh constant", case=case, observed=kappa))
@@ -77,13 +83,14 @@ def check_run(res, cls, t, m_i, nx, case):
 
 
 # ------------------------------------------------------------------------------------------
-GRIDS = [("quadratic", 30, 3.0), ("geometric", 30, 0), ("irregular", 30, 3.0)]
+GRIDS = [("quadratic", 30, 3.0), ("geometric", 30, 0), ("irregular", 30, 3.0), ("jitter", 25, 2.0),
+         ("tiny", 20, 0), ("integer", 12, 0), ("float32", 20, 2.0)]
 
 
 def cases_S(tier, seed):
     thorough = tier == "thorough"
     nxs = [3, 4, 5, 8, 16, 50, 150, 201, 400] if thorough else [3, 4, 8, 50, 150, 400]
-    tabs = ["T_ship_gas", "A_kink", "S_zdip"] + (["T_hay", "A_kink1e3", "A_fall"] if thorough else [])
+    tabs = ["T_ship_gas", "A_kink", "S_zdip", "S_zdip_desc"] + (["T_hay", "T_lib", "T_ship_oil", "A_jump", "A_kink1e3", "A_fall"] if thorough else ["A_jump"])
     pairs = [(100.0, 8000.0), (7000.0, 8000.0), (7990.0, 8000.0)]
     if seed:
         off = seed_offset(seed)
